@@ -46,6 +46,8 @@ DMETF = "tangelo/problem_decomposition/dmet/dmet_problem_decomposition.py"
 QPEF = "tangelo/algorithms/projective/qpe.py"
 TSU = "tangelo/toolboxes/unitary_generator/trotter_suzuki.py"
 TGSYMPY = "tangelo/linq/target/target_sympy.py"
+VSQSF = "tangelo/toolboxes/ansatz_generator/vsqs.py"
+ADAPTF = "tangelo/toolboxes/ansatz_generator/adapt_ansatz.py"
 ISP = "tangelo/toolboxes/molecular_computation/integral_solver_pyscf.py"
 
 FIRE = [
@@ -141,6 +143,8 @@ FIRE = [
     # ---- C07
     ("uccsd-rebuild-only-on-new-words", "C07", [(UCCSD, "        if set(self.pauli_to_angles_mapping.keys()) != set(qubit_op.terms.keys()):", "        if not self.pauli_to_angles_mapping.keys() >= qubit_op.terms.keys():")], "K8.support-change"),
     ("collapse-counter-in-data-dtype", "C16", [(MULTI, "np.linspace(0, len(operator) - 1, len(operator), dtype=int).reshape", "np.linspace(0, len(operator) - 1, len(operator), dtype=operator.dtype).reshape")], "K9.index-range-width"),
+    ("vsqs-gate-stride-navigator-not-doubled", "C07", [(VSQSF, "        self.n_var_gates = (self.n_h_init + self.n_h_final + self.n_h_nav) * self.trotter_order", "        self.n_var_gates = (self.n_h_init + self.n_h_final) * self.trotter_order + self.n_h_nav")], "K8.update-equals-rebuild"),
+    ("adapt-add-operator-keeps-raw-coefficient", "C07", [(ADAPTF, "            self._var_params_prefactor += [math.copysign(1., coeff)]\n            pauli_tuple = list(pauli_term.terms.keys())[0]\n            new_operator", "            self._var_params_prefactor += [coeff]\n            pauli_tuple = list(pauli_term.terms.keys())[0]\n            new_operator")], "K8.update-equals-rebuild"),
     ("uccsd-update-angle", "C07", [(UCCSD, "self.circuit._variational_gates[gate_index].parameter = 2.*coef if coef >= 0. else 4*np.pi+2*coef", "self.circuit._variational_gates[gate_index].parameter = 2.*coef if coef >= 0. else 2*np.pi+2*coef")], "K8.angle-clone"),
     ("hea-update-without-validation", "C07", [(HEA, "        self.set_var_params(var_params)\n        var_params = self.var_params\n\n        for param_index in range(self.n_var_params):",
                                                "        self.var_params = var_params\n\n        for param_index in range(self.n_var_params):")], "K6.length-validation"),
@@ -278,6 +282,7 @@ SILENT = [
     ("unitary-cache-key-complete", "C06", [(TSU, '        if method == "time":\n            return trotterize(self.qubit_hamiltonian, self.time*n_steps, self.n_trotter_steps, self.trotter_order, control=control)\n', '        key = (method, n_steps, str(control))\n        cache = self.__dict__.setdefault("_built", dict())\n        if key in cache:\n            return cache[key]\n        if method == "time":\n            cache[key] = trotterize(self.qubit_hamiltonian, self.time*n_steps, self.n_trotter_steps, self.trotter_order, control=control)\n            return cache[key]\n')]),
     ("sympy-expectation-adjoint-spelling", "C02", [(TGSYMPY, "        eigenvalue = Dagger(prepared_state) * operator * prepared_state", "        eigenvalue = prepared_state.conjugate().T * operator * prepared_state")]),
     ("complex-detection-spelling", "C02", [(BACK, '            if type(coef) in {complex, np.complex64, np.complex128}:', '            if type(coef) in (np.complex64, np.complex128, complex):', (0, 2)), (BACK, '            if type(coef) in {complex, np.complex64, np.complex128}:', '            if type(coef) in (np.complex64, np.complex128, complex):')]),
+    ("vsqs-gate-stride-spelling", "C07", [(VSQSF, "        self.n_var_gates = (self.n_h_init + self.n_h_final + self.n_h_nav) * self.trotter_order", "        self.n_var_gates = self.trotter_order * self.n_h_init + self.trotter_order * (self.n_h_final + self.n_h_nav)")]),
     ("angle-law-spelling", "C06", [(AU, "    angle = 2.*coef if coef >= 0. else 4*np.pi+2*coef", "    angle = 2.*coef + (0. if coef >= 0. else 4*np.pi)")]),
     ("cirq-branches-reordered", "C01", [(TCIRQ, '        elif gate_name in {"SWAP"}:\n            target_circuit.append(GATE_CIRQ[gate_name](qubit_list[gate.target[0]], qubit_list[gate.target[1]]))\n        elif gate_name in {"CSWAP"}:\n            next_gate = GATE_CIRQ[gate_name].controlled(num_controls)\n            target_circuit.append(next_gate(*control_list, qubit_list[gate.target[0]], qubit_list[gate.target[1]]))\n',
                                          '        elif gate_name in {"CSWAP"}:\n            next_gate = GATE_CIRQ[gate_name].controlled(num_controls)\n            target_circuit.append(next_gate(*control_list, qubit_list[gate.target[0]], qubit_list[gate.target[1]]))\n        elif gate_name in {"SWAP"}:\n            target_circuit.append(GATE_CIRQ[gate_name](qubit_list[gate.target[0]], qubit_list[gate.target[1]]))\n')]),
